@@ -412,24 +412,46 @@ class SymEval:
         return names, attrs
 
     def _loop(self, kind, st, frame, iter_term, target, cond_ast=None):
-        lid = self.uid()
         names, attrs = self._assigned_names(st.body)
         tnames = set()
         if target is not None:
             for n in ast.walk(target):
                 if isinstance(n, ast.Name):
                     tnames.add(n.id)
-        env_in = {}
-        for n in sorted(names - tnames):
-            if frame.lookup(n) is not None or True:
-                env_in[n] = T.sym(f"loop{lid}:{n}")
+        carried = sorted(n for n in names - tnames if n in frame.env)
+        carried_attrs = sorted(attrs)
+        # pass 1 (discarded): find which syntactically assigned names/attributes really change on a live path
+        # (assignments under constant-false conditions do not make a name loop-carried)
+        snap = (len(self.events), dict(frame.env), dict(self.heap), self.live, dict(self.loops), dict(self.closures))
+        lid = self.uid()
+        info = self._loop_pass(lid, kind, st, frame, iter_term, target, cond_ast, carried, carried_attrs)
+        really = [n for n in carried if info.env_out.get(n) != info.env_in.get(n)]
+        really_attrs = [(d, a) for d, a in carried_attrs if self.heap.get((T.sym(d), a)) != T.sym(f"loop{lid}:{d}.{a}")]
+        if really != carried or really_attrs != carried_attrs:
+            del self.events[snap[0]:]
+            frame.env, self.heap, self.live = dict(snap[1]), dict(snap[2]), snap[3]
+            self.loops, self.closures = dict(snap[4]), dict(snap[5])
+            lid = self.uid()
+            info = self._loop_pass(lid, kind, st, frame, iter_term, target, cond_ast, really, really_attrs)
+        self.loops[lid] = info
+        # after the loop: carried names are unknown
+        for n in (names if really == carried else set(really) | (names - set(carried))):
+            if n in really or n not in snap[1]:
+                frame.env[n] = T.sym(f"loopout{lid}:{n}")
+        for d, a in really_attrs:
+            self.heap[(T.sym(d), a)] = T.sym(f"loopout{lid}:{d}.{a}")
+        if st.orelse:
+            self.exec_block(st.orelse, frame)
+        return lid
+
+    def _loop_pass(self, lid, kind, st, frame, iter_term, target, cond_ast, carried, carried_attrs) -> LoopInfo:
         pre_env = dict(frame.env)
-        for n, v in env_in.items():
-            if n in frame.env:  # only loop-carried names that exist before the loop are havoc'd
-                frame.env[n] = v
-        for d, a in sorted(attrs):
-            base = T.sym(d)
-            self.heap[(base, a)] = T.sym(f"loop{lid}:{d}.{a}")
+        env_in = {}
+        for n in carried:
+            env_in[n] = T.sym(f"loop{lid}:{n}")
+            frame.env[n] = env_in[n]
+        for d, a in carried_attrs:
+            self.heap[(T.sym(d), a)] = T.sym(f"loop{lid}:{d}.{a}")
         if target is not None:
             self.assign(target, ("elem", iter_term, lid), frame, st)
         live0 = self.live
@@ -443,17 +465,8 @@ class SymEval:
         live_out = self.live
         self.loop_stack = self.loop_stack[:-1]
         self.live = live0
-        self.loops[lid] = LoopInfo(lid, kind, iter_term, _dotted(target) if target is not None else None,
-                                   {n: v for n, v in env_in.items() if n in pre_env}, env_out, cond_t, st, live0, live_out,
-                                   {n: pre_env[n] for n in env_in if n in pre_env})
-        # after the loop: assigned names are unknown
-        for n in names:
-            frame.env[n] = T.sym(f"loopout{lid}:{n}")
-        for d, a in attrs:
-            self.heap[(T.sym(d), a)] = T.sym(f"loopout{lid}:{d}.{a}")
-        if st.orelse:
-            self.exec_block(st.orelse, frame)
-        return lid
+        return LoopInfo(lid, kind, iter_term, _dotted(target) if target is not None else None, env_in, env_out, cond_t, st,
+                        live0, live_out, {n: pre_env[n] for n in env_in if n in pre_env})
 
     def st_For(self, st, frame):
         it = self.eval(st.iter, frame)
@@ -832,7 +845,7 @@ class SymEval:
                 fterm = self.heap[(recv, method)]
                 recv_is_module = False
             else:
-                fterm = T.mk_attr(recv, method)
+                fterm = ("attr", recv, method) if recv[0] == "ite" else T.mk_attr(recv, method)
         else:
             fterm = self.eval(e.func, frame)
         args = [self.eval_star(a, frame) for a in e.args]
@@ -1090,6 +1103,8 @@ class SymEval:
     def interpret(self, name, fterm, args, kwargs, node, frame, recv, method) -> Optional[Term]:
         kw = dict(kwargs)
         plain = [a for a in args if a[0] != "star"]
+        if name == "dict" and not args and not kwargs:
+            return ("dict", ())
         if name in ("max", "min") and not kwargs:
             items = None
             if len(args) >= 2 and len(plain) == len(args):
